@@ -447,6 +447,7 @@ Lemma mg_body_above rec c l s cm cy sub : l <> bottom c ->
 Proof.
   intros H E. unfold mg_body.
   replace (l =? bottom c) with false by (symmetry; now apply Z.eqb_neq).
+  unfold mg_handover. cbv zeta. cbn [fst snd].
   unfold next_shape in E. now rewrite E.
 Qed.
 
@@ -523,7 +524,9 @@ Definition fine_tb (c : cfg) : list ev :=
 Theorem fine_cycle_order c : 0 <= bottom c -> (cyc c = 70 \/ cyc c = 86 \/ cyc c = 87) ->
   fine_cycle (fuel_for c) c = Some (fine_tb c).
 Proof.
-  intros Hb Hc. unfold fine_cycle, fine_tb, fuel_for.
+  intros Hb Hc. unfold fine_cycle, fine_cycle_from, fine_tb, fuel_for.
+  replace (if level0_cycmax_recomputed then c else c) with c
+    by (destruct level0_cycmax_recomputed; reflexivity).
   destruct (Z.to_nat (bottom c)) as [|k] eqn:E.
   - rewrite mg_body_bottom by lia. reflexivity.
   - assert (L : 1 = bottom c - Z.of_nat k) by lia.
@@ -536,6 +539,36 @@ Proof.
       apply mg_body_above; [lia|]. apply mg_call_V; [assumption|lia|lia].
     + change (cycmax_of_cycle 87) with 2. cbn [Z.eqb Pos.eqb].
       apply mg_body_above; [lia|]. apply mg_call_W; [assumption|lia|lia].
+Qed.
+
+(* All fine-grid cycles of a run with cycling directions: each one is the
+   textbook cycle of ITS OWN configuration -- provided the level-0 cycmax is
+   re-computed in every cycle (flag read off solver.py). *)
+Lemma flag_holds : level0_cycmax_recomputed = true.
+Proof. reflexivity. Qed.
+
+Theorem outer_cycles_order c psc plr n :
+  (forall k, 0 <= bottom (cfg_at c psc plr k)) ->
+  (cyc c = 70 \/ cyc c = 86 \/ cyc c = 87) ->
+  outer_cycles c psc plr n =
+  map (fun k => Some (fine_tb (cfg_at c psc plr k))) (zrange n).
+Proof.
+  intros Hb Hc. unfold outer_cycles. apply map_ext. intros k.
+  cbv zeta. unfold fine_cycle_from. rewrite flag_holds.
+  apply (fine_cycle_order (cfg_at c psc plr k)); [apply Hb|exact Hc].
+Qed.
+
+(* With a stale level-0 cycmax the F-cycle degenerates: witness 48 x 5 x 3,
+   semicoarsening pattern 1-2-3, second cycle. *)
+Lemma stale_cycmax_refuted :
+  exists c1 c, 0 <= bottom c /\ cyc c = 70 /\
+    fine_cycle_stale c1 (fuel_for c) c <> Some (fine_tb c).
+Proof.
+  exists {| cyc := 70; sc := 1; lr := 0; user := 2; pre_on := true; post_on := true;
+            shape0 := (48, 5, 3) |},
+         {| cyc := 70; sc := 2; lr := 0; user := 2; pre_on := true; post_on := true;
+            shape0 := (48, 5, 3) |}.
+  split; [vm_compute; congruence|]. split; [reflexivity|]. vm_compute. congruence.
 Qed.
 
 (* ------------------------------------------------------------------------ *)
